@@ -259,8 +259,9 @@ func parseRequestBody(c *Client, r *Request) (err error) {
 		return
 	}
 	// client-level form data applies to multipart and url-encoded forms alike
-	if len(c.FormData) > 0 && r.RetryAttempt <= 0 { // merge client-level form data once, not again on every retry attempt
+	if len(c.FormData) > 0 && !r.clientFormDataMerged { // merge client-level form data once, not again when the body is set up again (retry attempt, digest re-send)
 		r.SetFormDataFromValues(c.FormData)
+		r.clientFormDataMerged = true
 	}
 
 	// handle multipart
